@@ -112,8 +112,10 @@ def executor_check(w: World, h: Any, res: Optional[Result] = None) -> None:
 
 def hang_failure(w: World) -> None:
     if w.spin_sig:
-        w.failures.insert(0, ('cpu_spin', w.spin_sig, 'a simulated thread ran for more than %.0f real seconds without reaching a kernel '
-                              'call: endless loop in %s' % (w.spin_budget_s, ' <- '.join(w.spin_chain))))
+        how = ('made more than %d kernel calls in a row' % w.spin_calls if getattr(w, 'spin_by_calls', False)
+               else 'ran for more than %.0f real seconds' % w.spin_budget_s)
+        w.failures.insert(0, ('cpu_spin', w.spin_sig, 'a simulated thread %s without ever blocking or yielding: endless loop in %s'
+                              % (how, ' <- '.join(w.spin_chain))))
     else:
         w.fail('hang', 'step-or-time-cap', 'run hit the step / virtual-time cap (steps=%d now=%.1f)' % (w.steps, w.now))
 
